@@ -23,7 +23,7 @@ RULE = ("Hypothesis draws either a string of the multilingual corpus (language f
 ASSUMPTIONS = ["one language per case: with several candidate languages strictness legitimately changes which language's reading is accepted (C13)",
                "PREFER_DATES_FROM stays at its default (a two-digit year takes its century from the clock by design)",
                "relative-time parser is not enabled: the property is about absolute date strings"]
-ESSENTIAL = ["zero-field", "src:corpus", "src:generated", "src:format", "src:timestamp", "mode:strict", "mode:require", "filtered", "passed-through",
+ESSENTIAL = ["mode:both", "zero-field", "src:corpus", "src:generated", "src:format", "src:timestamp", "mode:strict", "mode:require", "filtered", "passed-through",
              "parts:none-missing", "parts:day-missing", "parts:year-missing"]
 
 PARTS = ["day", "month", "year"]
@@ -68,12 +68,20 @@ def check_case(case):
     mode = case["mode"]  # "strict" or list of required parts
     b1, b2 = gen.to_dt(case["b1"]), gen.to_dt(case["b2"])
     base = []
+    both = False
     if case.get("parsers"):
         base.append(("PARSERS", tuple(case["parsers"])))
     strict_items = list(base)
     if mode == "strict":
         strict_items.append(("STRICT_PARSING", True))
         required = PARTS
+    elif isinstance(mode, dict):
+        # both filters together: STRICT_PARSING demands all three parts whatever REQUIRE_PARTS lists
+        strict_items.append(("STRICT_PARSING", True))
+        strict_items.append(("REQUIRE_PARTS", tuple(mode["both"])))
+        required = PARTS
+        mode = "strict"
+        both = True
     else:
         strict_items.append(("REQUIRE_PARTS", tuple(mode)))
         required = list(mode)
@@ -81,6 +89,8 @@ def check_case(case):
     cls = ["src:" + case["src"], "mode:" + ("strict" if mode == "strict" else "require")]
     if case.get("zero_field"):
         cls.append("zero-field")
+    if both:
+        cls.append("mode:both")
     present = case.get("present")
     if present is not None:
         missing = [p for p in PARTS if p not in present]
@@ -134,7 +144,8 @@ def check_case(case):
 
 MONTHS_EN = ["January", "February", "March", "April", "May", "June", "July", "August", "September", "October",
              "November", "December"]
-MODES = ["strict", ["day"], ["month"], ["year"], ["day", "month"], ["day", "year"], ["month", "year"], ["day", "month", "year"]]
+MODES = ["strict", ["day"], ["month"], ["year"], ["day", "month"], ["day", "year"], ["month", "year"], ["day", "month", "year"],
+         {"both": ["year"]}, {"both": ["month"]}, {"both": ["month", "year"]}, {"both": ["day"]}]
 PARSER_SETS = [["absolute-time"], ["absolute-time"], ["custom-formats", "absolute-time"], ["timestamp", "absolute-time"],
                ["timestamp", "custom-formats", "absolute-time"]]
 
